@@ -153,7 +153,14 @@ CoreIrreducible(core, hm) ==
   \A i \in DOMAIN core :
      SatStatus(tt, CoreSet(CoreNames(core) \ {core[i]}), Base, hm[i], dom) # "unsat"
 \* full-core mode: the printed formulas fs are current assertions, unsat on their own
-FullCoreCurrent(fs) == \A i \in DOMAIN fs : fs[i] \in Active
+\* fx[i] : for the i-th printed formula, one record [a, x, h] per current assertion a, where x is the
+\* term (xor fs[i] a) and h candidate models of x.  The printed formula counts as a current
+\* assertion unless the kernel can tell it apart from every one of them.
+FullCoreCurrent(fs, fx) ==
+  \A i \in DOMAIN fs :
+     \/ fs[i] \in Active
+     \/ { fx[i][j].a : j \in DOMAIN fx[i] } # Active          \* comparison incomplete: no verdict
+     \/ \E j \in DOMAIN fx[i] : SatStatus(tt, {fx[i][j].x}, Base, fx[i][j].h, dom) # "sat"
 FullCoreUnsat(fs, h) == SatStatus(tt, { fs[i] : i \in DOMAIN fs }, Base, h, dom) # "sat"
 FullCoreIrreducible(fs, hm) ==
   \A i \in DOMAIN fs :
